@@ -305,9 +305,12 @@ def backendCall (sys : Sys) (p : Nat) (cmd : List Bytes) : Sys × Resp :=
 
 def space : Bytes := [32]
 
+def usizeMax : Nat := 18446744073709551615
+
 /-- `MetaManager::send` without migration: local backend (reply through
-`DecompressCommitHandler`), else the peer (`ActiveRedirection` ⇒ `send_cmd_ctx_to_remote_directly`,
-reply through `ReplyCommitHandler`), else MOVED -/
+`DecompressCommitHandler`), else the peer (`ActiveRedirection` ⇒ `send_cmd_ctx_to_remote_directly`:
+always wrapped in `UMFORWARD <times>`, `usize::MAX` when there is no limit; reply through
+`ReplyCommitHandler`), else MOVED -/
 def sendCmd (e : Env) (deliver : Deliver) (sys : Sys) (p : Nat) (ctx : Ctx) : Sys × Resp :=
   let ty := dataTypeOf ctx.cmd
   match ctx.cmd[keyIndex ty]? with
@@ -321,16 +324,19 @@ def sendCmd (e : Env) (deliver : Deliver) (sys : Sys) (p : Nat) (ctx : Ctx) : Sy
         let r := backendCall sys p ctx.cmd
         (r.1, commitReply e.codec e.strategy ty r.2)
       else if e.activeRedirection then
-        match ctx.redirTimes.orElse (fun _ => e.maxRedirections.map (· - 1)) with
+        match (ctx.redirTimes.orElse (fun _ => e.maxRedirections.map (· - 1))).orElse
+            (fun _ => some usizeMax) with
         | some t =>
           if t = 0 then (sys, .error ERR_TOO_MANY_REDIRECTIONS)
           else deliver sys q (UMFORWARD :: natDec (t - 1) :: ctx.cmd)
         | none => deliver sys q ctx.cmd
       else (sys, .error (ERR_MOVED ++ space ++ natDec slot ++ space ++ e.addr q))
 
-/-- `handle_single_key_data_cmd` -/
+/-- `handle_single_key_data_cmd`: a command that arrived through UMFORWARD (`redirection_times` set)
+was already checked and compressed by the proxy that received it from the client -/
 def handleSingle (e : Env) (deliver : Deliver) (sys : Sys) (p : Nat) (ctx : Ctx) : Sys × Resp :=
-  match compressCmd e.codec e.strategy ctx.cmd with
+  if ctx.redirTimes.isSome then sendCmd e deliver sys p ctx
+  else match compressCmd e.codec e.strategy ctx.cmd with
   | .ok cmd' => sendCmd e deliver sys p { ctx with cmd := cmd' }
   | .error .unsupportedCmdType => sendCmd e deliver sys p ctx
   | .error .disabled => sendCmd e deliver sys p ctx
@@ -339,12 +345,14 @@ def handleSingle (e : Env) (deliver : Deliver) (sys : Sys) (p : Nat) (ctx : Ctx)
   | .error .restrictedCmd => (sys, .error ERR_RESTRICTED)
   | .error .io => (sys, .error (B "failed to compress data"))
 
-/-- sub-commands created with `CmdCtxFactory::create_with_ctx` (fresh `CmdCtx`), issued in order -/
-def runSubs (e : Env) (deliver : Deliver) (p : Nat) : Sys → List (List Bytes) → Sys × List Resp
+/-- sub-commands created with `CmdCtxFactory::create_with_ctx` (fresh `CmdCtx`; `rt` is the
+redirection mark that `handle_msetnx` copies from its parent, `none` elsewhere), issued in order -/
+def runSubs (e : Env) (deliver : Deliver) (p : Nat) (rt : Option Nat) :
+    Sys → List (List Bytes) → Sys × List Resp
   | sys, [] => (sys, [])
   | sys, c :: cs =>
-    let r := handleSingle e deliver sys p { cmd := c }
-    let rest := runSubs e deliver p r.1 cs
+    let r := handleSingle e deliver sys p { cmd := c, redirTimes := rt }
+    let rest := runSubs e deliver p rt r.1 cs
     (rest.1, r.2 :: rest.2)
 
 def firstError : List Resp → Option Bytes
@@ -374,7 +382,7 @@ def handleMget (e : Env) (deliver : Deliver) (sys : Sys) (p : Nat) (ctx : Ctx) :
   let keys := ctx.cmd.drop 1
   if !e.activeRedirection && !sameSlot e.slot keys then (sys, .error ERR_NOT_THE_SAME_SLOT)
   else
-    let r := runSubs e deliver p sys (keys.map fun k => [GET, k])
+    let r := runSubs e deliver p none sys (keys.map fun k => [GET, k])
     (r.1, mgetReply r.2)
 
 /-- keys inspected by the slot check of `handle_mset`/`handle_msetnx`:
@@ -424,8 +432,6 @@ def groupBySlot (slot : Bytes → Nat) : List (Bytes × Bytes) → List (Nat × 
   | [], acc => acc
   | (k, v) :: rest, acc => groupBySlot slot rest (insertGroup (slot k) k v acc)
 
-def usizeMax : Nat := 18446744073709551615
-
 def ERR_MSETNX_REPLY : Bytes := B "unexpected reply from MSETNX"
 
 /-- the reply loop of `handle_msetnx` (`Err` = the reply set by an early return). The Debug
@@ -446,7 +452,8 @@ def msetnxReply (rs : List Resp) : Resp :=
     | .error resp => resp
     | .ok n => .integer (natDec n)
 
-/-- `handle_msetnx` (no migration: `ensure_keys_imported` is `Ok`) -/
+/-- `handle_msetnx` (no migration: `ensure_keys_imported` is `Ok`); the regrouped sub-commands keep
+the parent's redirection mark -/
 def handleMsetnx (e : Env) (deliver : Deliver) (sys : Sys) (p : Nat) (ctx : Ctx) : Sys × Resp :=
   if !e.activeRedirection && !sameSlot e.slot (pairKeysForSlotCheck ctx.cmd) then
     (sys, .error ERR_NOT_THE_SAME_SLOT)
@@ -454,7 +461,7 @@ def handleMsetnx (e : Env) (deliver : Deliver) (sys : Sys) (p : Nat) (ctx : Ctx)
     | none => (sys, .error ERR_MSETNX_ARGS)
     | some pairs =>
       let groups := groupBySlot e.slot pairs []
-      let r := runSubs e deliver p sys (groups.map (·.2))
+      let r := runSubs e deliver p ctx.redirTimes sys (groups.map (·.2))
       (r.1, msetnxReply r.2)
 
 /-- marker for the parts of the executor that this model leaves out (multi-key DEL/EXISTS,
